@@ -927,9 +927,16 @@ def run(ctx: Ctx):
             vi += 1
         for label, v, snaps in pairs:
             ctx.cov["traces_validated_against_impl"] += 1
+            # a checkpoint written WITHOUT the raw data does not contain the dataset model (nor its optimiser /
+            # scheduler): that route is outside "saving it together with its data" (the oracle does not judge it
+            # either), and the model has no operation for re-attaching a dataset: its entry is not compared there
+            no_ds = any(a in META for a in atoms_of(case))
             for mv, (_i, name, snap) in zip(v, snaps):
                 want = canon_struct(snap)
                 got = canon_model(mv)
+                if no_ds and got is not None:
+                    want = (list(want[0][:2]), want[1], {k: x for k, x in want[2].items() if k != MODEL_IDX["dataset"]})
+                    got = (list(got[0][:2]), got[1], {k: x for k, x in got[2].items() if k != MODEL_IDX["dataset"]})
                 n_ck += 1
                 if got != want:
                     nd += 1
